@@ -545,6 +545,40 @@ theorem custom_code_lookup_stable (ss tt : List Style) (c : Str) (n : Nat)
   | none => rw [hf] at h; cases h
   | some nf => rw [hf] at h; simpa using h
 
+/-- **custom_codes_case_sensitive**: in every registry reachable from `NewFile()`, two DIFFERENT custom
+format codes that are both stored resolve to DIFFERENT numFmt ids — in particular codes that differ
+only in letter case (`0.00E+00` / `0.00e+00`, `yyyy-mm-dd` / `YYYY-MM-DD`): the comparison is the exact
+`==` pinned by `custom_lookup_is_exact`, never a case fold -/
+theorem custom_codes_case_sensitive (ss : List Style) (c1 c2 : Str) (n1 n2 : Nat) (hne : c1 ≠ c2)
+    (h1 : getCustomNumFmtID (runNew initReg ss) c1 = some n1)
+    (h2 : getCustomNumFmtID (runNew initReg ss) c2 = some n2) : n1 ≠ n2 := by
+  intro h; subst h
+  exact hne (custom_code_injective ss c1 c2 n1 h1 h2)
+
+/-- style ids of `NewStyle s1; NewStyle s2; NewStyle s1; NewStyle s2` on the registry of `NewFile()` -/
+def abab (s1 s2 : Style) : Except Err (Nat × Nat × Nat × Nat) :=
+  match newStyle initReg s1 with
+  | .error e => .error e
+  | .ok (r1, a, _) =>
+    match newStyle r1 s2 with
+    | .error e => .error e
+    | .ok (r2, b, _) =>
+      match newStyle r2 s1 with
+      | .error e => .error e
+      | .ok (r3, a', _) =>
+        match newStyle r3 s2 with
+        | .error e => .error e
+        | .ok (_, b', _) => .ok (a, b, a', b')
+
+/-- case twins end to end (the harness's `twin:CustomNumFmt(… case)` bases): codes differing only in
+letter case get two style ids, and each is found again under its own id -/
+theorem custom_case_twins_distinct_styles :
+    abab { zs with customNumFmt := some "0.00E+00".toList } { zs with customNumFmt := some "0.00e+00".toList }
+      = .ok (1, 2, 1, 2) ∧
+    abab { zs with customNumFmt := some "yyyy-mm-dd".toList } { zs with customNumFmt := some "YYYY-MM-DD".toList }
+      = .ok (1, 2, 1, 2) := by
+  decide +kernel
+
 /-- **component_ids_stable** (the component registries fonts / fills / borders): for EVERY registry
 with `WF`, EVERY definition and ANY later history of `NewStyle` calls, a component that is found now
 (`getFontID` / `getFillID` / `getBorderID`) is found under the same index afterwards — first-match
